@@ -7,11 +7,19 @@ D: random PAR grammars (scanner states, %on/%enter/%push/%pop, %skip, comments, 
    model of TokenStream over `tokenizeSpec` on the same description (regexes lowered by the harness).
    `order` cases tie the model of generate_build_information's terminal order.
 Oracle: the delivered token sequence must be the one of the documented rule (`tokenizeSpec`), gaps
-   filled, one EOI — for every k and schedule."""
+   filled, one EOI — for every k and schedule.
+C13b (Props/C13b.lean, harness/src/c13b.rs): the scanner description above is re-derived from the REAL
+   generate_build_information, so a defect inside that function reaches both sides. `buildInfo` is a
+   Lean model of generate_build_information + TerminalKind::expand that works on the SOURCE-level data
+   of the grammar config (terminals as written: text, kind, lookahead with its own kind, scanner states;
+   comment delimiters and flags per scanner state); `binfo`/`rawlit` cases tie it byte for byte to the
+   real functions, and `binfo-scan-check` judges the REAL scanner's token sequences on probe texts
+   against tokenizeSpec over the MODEL's mappings."""
 from . import common
 
 FILES = [
     "crates/parol/src/generators/scanner_config.rs",
+    "crates/parol/src/grammar/symbol.rs",
     "crates/parol/src/generators/lexer_generator.rs",
     "crates/parol_runtime/src/lexer/token_stream.rs",
     "crates/parol_runtime/src/lexer/token_iter.rs",
@@ -71,11 +79,85 @@ def extra(ctx, state):
         elif w[0] == "order":
             stats["order"] += 1
     state["coverage_extra"] = {"distribution": stats}
+    c13b_tie(ctx, state)
+
+
+def c13b_probe(cases_p, model_p):
+    """Oracle stage of C13b: `pv c13b probe` runs the REAL scanner on the probe texts of every binfo
+    case and lowers the MODEL's regex texts; returns (ok, stderr, [(case index, request)], skip counts)."""
+    rc, out, err = common.sh([common.PV, "c13b", "probe", cases_p, model_p], timeout=3000)
+    reqs, skipped = [], {}
+    for l in common._strip_replies(out):
+        i, rest = l.split(" ", 1)
+        if rest.startswith("skip "):
+            skipped[rest[5:]] = skipped.get(rest[5:], 0) + 1
+        else:
+            reqs.append((int(i), rest))
+    return rc == 0, err[-2000:], reqs, skipped
+
+
+def c13b_tie(ctx, state):
+    """C13b: tie D for `buildInfo` (model of generate_build_information / TerminalKind::expand on the
+    source-level data, Props/C13b.lean) + the property oracle on the real scanner's output."""
+    cases_p, impl_p, model_p = ctx.path("c13b_cases.txt"), ctx.path("c13b_impl.txt"), ctx.path("c13b_model.txt")
+    okg, errg = common.gen_cases("c13b", ctx.seed, ctx.tier, ctx.path("c13b_gen.txt"))
+    cases = common.corpus_lines("C13b") + (common.read_lines(ctx.path("c13b_gen.txt")) if okg else [])
+    with open(cases_p, "w") as f:
+        f.write("\n".join(cases) + "\n")
+    oki, erri = common.run_impl("c13b", cases_p, impl_p)
+    impl = common.read_lines(impl_p)
+    common.run_model(cases_p, model_p)
+    model = common.read_lines(model_p)
+    if not okg or not oki or len(impl) != len(cases) or not cases:
+        common.violation(ctx, "C13_c13b_impl_run.json", {
+            "broken": "correspondence D:c13b (implementation driver crashed or produced too few replies)",
+            "stderr": (errg if not okg else erri), "replies": len(impl), "cases": len(cases)}, no_input=True)
+        return
+    diffs = common.diff_streams(cases, impl, model)
+    okp, errp, reqs, skipped = c13b_probe(cases_p, model_p)
+    with open(ctx.path("c13b_oracle_req.txt"), "w") as f:
+        f.write("\n".join(r for _, r in reqs) + "\n")
+    reps = []
+    if reqs:
+        common.run_model(ctx.path("c13b_oracle_req.txt"), ctx.path("c13b_oracle_rep.txt"))
+        reps = common.read_lines(ctx.path("c13b_oracle_rep.txt"))
+    fails = [(cases[i], r, rep) for (i, r), rep in zip(reqs, reps + ["<missing>"] * (len(reqs) - len(reps))) if rep != "ok"]
+    if not okp:
+        common.violation(ctx, "C13_c13b_probe_run.json", {
+            "broken": "correspondence D:c13b (oracle stage `pv c13b probe` crashed)", "stderr": errp}, no_input=True)
+    if fails:
+        fails.sort(key=lambda t: len(t[1]))
+        w = fails[0][1].split()
+        common.violation(ctx, "C13_c13b_oracle.json", {
+            "kind": "property fails on the implementation (oracle): the REAL scanner generated for a grammar does not tokenize a "
+                    "probe text by the documented rule applied to the grammar AS WRITTEN (terminal / lookahead kinds, comment styles)",
+            "case": fails[0][0], "probe_text_codepoints": w[6], "real_scanner_delivered": w[7], "oracle": fails[0][2],
+            "oracle_request": fails[0][1], "count": len(fails)})
+    elif diffs:
+        diffs.sort(key=lambda t: len(t[1]))
+        i, c, a, b = diffs[0]
+        common.violation(ctx, "C13_c13b_tie.json", {
+            "kind": "model of generate_build_information and the real function disagree; the property oracle found no failing input",
+            "broken": "correspondence D:c13b (theorems of ParolModel.Props.C13b no longer transfer to the code)",
+            "case": c, "impl_reply": a, "model_reply": b, "disagreements": len(diffs)}, no_input=True)
+    binfo = [(c, a) for c, a in zip(cases, impl) if c.startswith("binfo ")]
+    state.setdefault("coverage_extra", {})["c13b_build_info_tie"] = {
+        "cases": len(cases), "binfo": len(binfo), "rawlit": sum(1 for c in cases if c.startswith("rawlit ")),
+        "grammars_rejected_by_parol": sum(1 for c in cases if c.startswith("note:")),
+        "disagreements": len(diffs),
+        "binfo_with_lookahead_terminal": sum(1 for c, _ in binfo if ":+" in c.split()[2] or ":!" in c.split()[2]),
+        "binfo_with_several_line_comment_styles": sum(1 for c, _ in binfo if any("/" in s.split(":")[2] for s in c.split()[3].split(";"))),
+        "binfo_with_several_block_comment_styles": sum(1 for c, _ in binfo if any("/" in s.split(":")[3] for s in c.split()[3].split(";"))),
+        "binfo_with_several_scanner_states": sum(1 for c, _ in binfo if ";" in c.split()[3]),
+        "binfo_panic_replies": sum(1 for _, a in binfo if a == "panic"),
+        "binfo_format_error_replies": sum(1 for _, a in binfo if "err:" in a),
+        "oracle_checked": len(reqs), "oracle_failures": len(fails), "oracle_skipped": skipped}
 
 
 SPEC = {
     "prop": "c13",
     "mod": "ParolModel.Props.C13",
+    "more_mods": ["ParolModel.Props.C13b"],
     "files": FILES,
     "oracle_req": oracle_req,
     "nontrivial": nontrivial,
@@ -88,12 +170,18 @@ SPEC = {
             "%allow_unmatched/%skip/%on..%enter|%push|%pop per state; per grammar 14 (quick) / 40 (thorough) texts; 150 / 2500 grammars rendered from terminal samples, "
             "whitespace incl. CR/LF/CRLF/NBSP/U+2028/VT, comment snippets incl. unterminated ones, junk and non-ASCII characters; k cycles 1..4, "
             "peek schedule alternates, every 5th text repeated with another (k, schedule); non-trivial = scan case with non-empty text; "
-            "distinct = distinct request lines",
+            "distinct = distinct request lines. C13b: 3 hand-written + 120 / 1500 random PAR grammars with 1..4 scanner states, 2..8 terminals from 37 raw strings "
+            "(meta characters, preserved and broken \\u{..} escapes, backslashes) and 32 regex/legacy literals, every second terminal with a positive or negative lookahead "
+            "whose kind is drawn independently of the terminal's, 0..3 %line_comment and 0..3 %block_comment styles per state (raw, regex and legacy delimiters), "
+            "flags, %skip, %on; every 12th grammar again with a truncated terminal_names slice (index panics); per grammar 4 probe texts per lookahead terminal "
+            "(sample+lookahead sample, sample+lookahead pattern taken literally, sample+junk, sample twice), the state's comment texts (all styles one after the other, CRLF), "
+            "5 / 10 random texts; 25 hand-picked + 1500 / 20000 random `rawlit` texts over meta characters, hex digits, `\\u{`, `}`",
     "assumptions": [
         "scnr2/scnr2_generate (external crates) are only observed: the tie compares the real scanner with tokenizeSpec on the explored scanners and texts",
         "regex-syntax -> Re lowering (harness/src/relower.rs) is part of the tie and validated by the same run; regexes with look-around, non-greedy repetition or byte classes are skipped and counted",
         "the run-time construction of the scnr2 tables mirrors the scanner! macro (same scnr2_generate calls as cs_lexer_generator.rs); the macro itself is not executed",
         "the parser's access pattern is modelled as: [peek all k lookahead positions,] take_skip_tokens, consume — until the first EOI",
+        "C13b: the source-level data handed to the model of generate_build_information is extracted by the harness from the real front end's GrammarConfig (get_ordered_terminals, ScannerConfig fields) without calling generate_build_information; the front end itself is C12/C25's business. The regex TEXTS of the model's mappings are lowered to Re by the harness (regex-syntax, relower.rs) for the oracle; for raw terminals and raw lookaheads the oracle additionally insists that the lowered regex is the literal Re.lit (rawMeaning text). The `as TerminalIndex` casts are not modelled (fewer than 65531 terminals)",
     ],
 }
 
@@ -109,7 +197,16 @@ CLAIM = {
             "the model of TokenStream's read-ahead (read_tokens, ensure_buffer, take_skip_tokens, consume, EOI padding) stream_indep_of_k / "
             "stream_indep_of_consumption: for every k and both access schedules exactly the matches with gaps filled plus one EOI are delivered. Tied to the code by exact differential runs of the real "
             "parol front end + generate_build_information + scnr2 (tables built at run time) + TokenStream against the model for k = 1..4 and two "
-            "access schedules; every implementation reply is also judged against the k-independent reference sequence.",
+            "access schedules; every implementation reply is also judged against the k-independent reference sequence. "
+            "C13b (Props/C13b.lean) closes the gap between the grammar AS WRITTEN and that scanner description: for the model buildInfo of "
+            "ScannerConfig::generate_build_information and TermKind.expand of TerminalKind::expand, for ALL inputs: expand_regex_id, "
+            "expand_raw_matches_literal / raw_meaning_is_text / literal_matches_exactly / expand_raw_charwise (the regex of a raw terminal is a literal "
+            "regex denoting exactly its text; preserved \\u{..} escapes denote their code point), mappings_exact / mappings_order (newline, whitespace, "
+            "line comment, block comment, the state's user terminals in index order with k.expand(t) and token i+5, error token last unless "
+            "allow_unmatched), lookahead_uses_own_kind / lookahead_indep_of_terminal (a lookahead is expanded with ITS OWN kind), "
+            "line_comment_rx_alternatives / line_comment_alternation_meaning (one `start.*(\\r\\n|\\r|\\n)?` per style), build_info_no_panic. "
+            "buildInfo is tied byte for byte to the real function on the source-level data of random grammars, and the REAL scanner's token "
+            "sequences on probe texts are decided against tokenizeSpec over the model's mappings.",
     "design_ref": "DESIGN.md §6 C13",
     "note": "scnr2 is an external crate: its agreement with the documented rule is observed on the explored cases, not proved. Known findings F21 "
             "(scnr2 never matches U+10FFFF) and F25 (scnr2 drops an empty first alternative) are reproduced on dedicated cases; the faithful scanner "
@@ -122,10 +219,28 @@ def run(ctx):
     return common.standard_flow(ctx, SPEC)
 
 
+def replay_c13b(ctx, case):
+    a = common.impl_lines("c13b", [case])[0]
+    b = common.model_lines([case])[0]
+    cp, mp = ctx.path("replay_case.txt"), ctx.path("replay_model.txt")
+    open(cp, "w").write(case + "\n")
+    open(mp, "w").write(b + "\n")
+    okp, errp, reqs, skipped = c13b_probe(cp, mp)
+    reps = common.model_lines([r for _, r in reqs]) if reqs else []
+    bad = [(r, rep) for (_, r), rep in zip(reqs, reps) if rep != "ok"]
+    print(f"case: {case}\nimpl: {a}\nmodel: {b}\noracle: {len(reqs)} probe(s), {len(bad)} failing, skipped {skipped}")
+    for r, rep in bad[:5]:
+        w = r.split()
+        print(f"  probe {w[6]}: real scanner delivered {w[7]}; oracle: {rep}")
+    return 0 if (a == b and okp and not bad) else 1
+
+
 def replay(ctx, payload):
     case = payload.get("case")
     common.build_harness()
     common.lake_build(["parol_model"])
+    if case and case.split()[0] in ("binfo", "rawlit"):
+        return replay_c13b(ctx, case)
     a = common.impl_lines("c13", [case])[0]
     b = common.model_lines([case])[0]
     req = oracle_req(case, a)
